@@ -52,8 +52,8 @@ def r2_any_dependent_member_wraps(ctx):
         good = isinstance(v, ast.Call) and call_name(v) == "any" and len(v.args) == 1 and isinstance(v.args[0], (ast.GeneratorExp, ast.ListComp))
         if good:
             g = v.args[0].generators[0]
-            good = isinstance(g.iter, ast.Name) and not g.ifs and any(is_self_attr(x, "dependent", selfname=rv) for x in ast.walk(v.args[0].elt))
-            grp = g.iter.id if good else None
+            good = dotted(g.iter) is not None and not g.ifs and any(is_self_attr(x, "dependent", selfname=rv) for x in ast.walk(v.args[0].elt))
+            grp = dotted(g.iter) if good else None
         ok = ok and good
     ctx.ob(
         f"{res.key}:wrap-decision-existential",
@@ -76,7 +76,7 @@ def r2_any_dependent_member_wraps(ctx):
                     ge = v.args[0]
                     g = ge.generators[0]
                     var = dotted(g.target)
-                    whole = isinstance(g.iter, ast.Name) and not g.ifs
+                    whole = dotted(g.iter) is not None and not g.ifs
                     e = ge.elt
                     is_call = isinstance(e, ast.Call) and call_name(e) == "is_dependent" and len(e.args) == 1
                     a = e.args[0] if is_call else None
@@ -333,7 +333,7 @@ def r3_skeleton_laws(ctx):
                     same_k = isinstance(e, ast.Call) and len(e.args) == 2 and isinstance(e.args[0], ast.Subscript) and dotted(e.args[0].slice) == k and isinstance(e.args[1], ast.Call) and len(e.args[1].args) == 1 and dotted(e.args[1].args[0]) == k
                     rel = codes.generators[0].iter
                     reld = defs.get(dotted(rel), [None])[0] if isinstance(rel, ast.Name) else rel
-                    rel_ok = isinstance(reld, (ast.ListComp, ast.GeneratorExp)) and len(reld.generators) == 1 and isinstance(reld.generators[0].iter, ast.Name) and len(reld.generators[0].ifs) == 1 and call_name(reld.generators[0].ifs[0]) == "is_dependent" and dotted(reld.elt) == dotted(reld.generators[0].target)
+                    rel_ok = isinstance(reld, (ast.ListComp, ast.GeneratorExp)) and len(reld.generators) == 1 and dotted(reld.generators[0].iter) is not None and len(reld.generators[0].ifs) == 1 and call_name(reld.generators[0].ifs[0]) == "is_dependent" and dotted(reld.elt) == dotted(reld.generators[0].target)
                     chain_ok = same_k and rel_ok
             okg = chain_ok
             if not okg:
